@@ -127,6 +127,9 @@ func (t *T) Tier() string { return t.r.Tier }
 // AddTransitions / AddStates let a case report state-space numbers (only executed cases count).
 func (t *T) AddTransitions(n int64) { t.r.res.Transitions += n }
 func (t *T) AddStates(n int64)      { t.r.res.States += n }
+
+// Heartbeat tells the parent's watchdog that a long-running case is alive.
+func (t *T) Heartbeat() { t.r.Heartbeat() }
 func (t *T) AddExtra(k string, n int64) { t.r.res.Extra[k] += n }
 
 // GroupStat is the per-group coverage.
